@@ -8,6 +8,7 @@ CONSTANTS
   EndSyms = {TRUE, FALSE}
   AnnModes = {"none"}
   WithProxyDel = TRUE
+  CfiLayouts = {"none"}
   Emit = TRUE
 INVARIANT Inv
 CHECK_DEADLOCK FALSE
